@@ -142,6 +142,7 @@ def ch_timeline(ctx) -> Channel:
         _, rep, timing = segpure.make_objects(lay, "live", now=now, depth=depth)
         from dashlive.utils.date_time import timedelta_to_timecode
         tcF = timedelta_to_timecode(timing.firstAvailableTime, lay.ts)
+        rep._verif_case = {"E_us": E_us, "depth": depth}
         cases.append((lay, rep, timing, "live", tcF, timing.timeShiftBufferDepth))
         lines.append(f"timeline live {lay.durs_arg()} {lay.R} {lay.ts} {tcF} {timing.timeShiftBufferDepth}")
     model = _driver(ch, lines)
@@ -175,6 +176,7 @@ def ch_timeline(ctx) -> Channel:
                 if not ok:
                     ch.oracle_failures.append({
                         "kind": "listed-time-does-not-resolve", "layout": lay.json(), "line": line, "t": t,
+                        "clock": getattr(rep, "_verif_case", None),
                         "what": "a listed $Time$ is not the start of the segment it resolves to"})
                     break
         ch.sample({"line": line, "timeline": impl[:200]}, limit=2)
@@ -393,15 +395,37 @@ def replay(ctx, payload):
         _, rep, _ = segpure.make_objects(lay, "live")
         got = rep.get_segment_index(f["t"])
         return {"fails": f"{got[0]} {got[1]} {got[2]}" != f["want"], "got": got, "want": f["want"]}
+    if f.get("kind") == "listed-time-does-not-resolve" and f.get("clock"):
+        lay = segpure.Layout.from_json(f["layout"])
+        now = segpure.START + datetime.timedelta(microseconds=f["clock"]["E_us"])
+        _, rep, _ = segpure.make_objects(lay, "live", now=now, depth=f["clock"]["depth"])
+        bad = []
+        for t, d in segpure.expand_nodes(rep.generateSegmentTimeline()):
+            mod, origin, seg_start = rep.calculate_segment_from_timecode(t, True)
+            if not (seg_start == t and origin + sum(lay.durs[:mod - 1]) == t):
+                bad.append([t, mod, origin, seg_start])
+        return {"fails": bool(bad), "listed_times_that_do_not_resolve": bad[:5]}
     if "fetch" in f:
         import appboot
+        import hashlib
+        import mp4walk
         import segchecks
         import segwalk
         app = segchecks.get_app()
-        with appboot.Clock(f["fetch"]["now"]):
-            r = segwalk.get(app.client(), f["fetch"]["url"])
-            info = segwalk.read_segment(r.data) if r.status_code == 200 else None
-        return {"fails": None, "status": r.status_code,
-                "tfdt": info and info.tfdt, "seqnum": info and info.seqnum,
-                "total_duration": info and info.total_duration, "expected": f}
+        fd = dict(f["fetch"])
+        fx = segchecks.Fetch(**fd)
+        with appboot.Clock(fd["now"]):
+            r = segwalk.get(app.client(), fd["url"])
+        fx.status = r.status_code
+        fx.tfdt = fx.seqnum = fx.total_duration = fx.payload_sha = fx.walk_error = None
+        if r.status_code == 200:
+            info = segwalk.read_segment(r.data)
+            fx.tfdt, fx.seqnum, fx.total_duration, fx.walk_error = info.tfdt, info.seqnum, info.total_duration, info.error
+            if info.boxes:
+                md = mp4walk.find(info.boxes, "mdat")
+                fx.payload_sha = hashlib.sha1(r.data[md.payload_start:md.end]).hexdigest()
+        t = segchecks.tracks(app, fd["stream"]).get(fd["rep_id"])
+        again = oracle_fetch(t, fx) if (t is not None and r.status_code == 200) else None
+        return {"fails": bool(again), "status": r.status_code, "tfdt": fx.tfdt, "seqnum": fx.seqnum,
+                "total_duration": fx.total_duration, "oracle": again and again.get("what")}
     return {"fails": False, "note": "replay names a broken obligation", "payload": payload.get("broken")}
